@@ -1,4 +1,5 @@
 import AfkakProofs.Group.Busy
+import AfkakProofs.Group.AfterStop
 import Afkak.Monitor.C16
 import Afkak.Monitor.C17
 /-!
@@ -54,5 +55,29 @@ theorem neverIdle_runFrom (cfg : Cfg) (evs : List Ev) :
 theorem neverIdle_run (cfg : Cfg) (evs : List Ev) (hne : ∀ e ∈ evs, nonKafkaEscape e = false) :
     Afkak.Monitor.C17.neverIdle (toMSteps (run cfg evs)) = true :=
   neverIdle_runFrom cfg evs init sinv_init busy_init hne
+
+/-- a per-step check that follows from `SInv` of the pre-state holds at every step of every run -/
+theorem all_runFrom (cfg : Cfg) (P : MStep → Bool)
+    (hstep : ∀ s, SInv s → ∀ e, P ⟨e, (step cfg s e).2, snap (step cfg s e).1⟩ = true) (evs : List Ev) :
+    ∀ s, SInv s → (toMSteps (runFrom cfg s evs)).all P = true := by
+  induction evs with
+  | nil => intro s _; rfl
+  | cons e es ih =>
+    intro s h
+    simp only [runFrom, toMSteps, List.map_cons, List.all_cons, Bool.and_eq_true]
+    exact ⟨hstep s h e, ih _ (step_sinv h cfg e)⟩
+
+theorem afterStop_run (cfg : Cfg) (evs : List Ev) :
+    Afkak.Monitor.C16.afterStopOnlyLeave (toMSteps (run cfg evs)) = true := by
+  refine all_runFrom cfg _ (fun s h e => ?_) evs init sinv_init
+  unfold Afkak.Monitor.C16.afterStopStep snap
+  simp only [Bool.or_eq_true, Bool.not_eq_eq_eq_not, Bool.not_true]
+  by_cases hs : (step cfg s e).1.stopping = true
+  · right
+    rw [List.any_eq_false]
+    intro o ho
+    have := step_afterStop h cfg e hs o ho
+    simp [this]
+  · left; simpa using hs
 
 end Afkak.Group
